@@ -472,6 +472,10 @@ class Resolve(Kernel):
     scope = {"lo": 0, "hi": 3}
     title = "resolve: the unique survivor of minimum rank is selected; none -> resolution error; shared minimum -> ambiguity error"
     max_paths = 20000
+    bounded_fallback = 3        # a rewritten selection step (new loops): searched over at most three candidates, a pass proves nothing
+
+    def bound_sizes(self, I, n):
+        I.ctx.assume(self.N <= n)
 
     def setup(self, I):
         ctx = I.ctx
